@@ -1,5 +1,8 @@
 import SpVerif.J
 import SpVerif.Model.Prefix
+import SpVerif.Model.PrefixPdu
+import SpVerif.Ops.DirectiveFixed
+import SpVerif.Ops.FileData
 import SpVerif.Ops.SpacePacket
 import SpVerif.Ops.PusTc
 import SpVerif.Ops.PusTm
@@ -20,6 +23,12 @@ the same object.
 `c09_split {kinds:[{kind,cfg}], raws:[hex], tail}` — iterate "decode, drop reported length" over the
 concatenation (one kind per expected unit; kinds may differ).
 `c09_stream {kind, cfg, raws:[hex]}` — decode units of one kind until the buffer is exhausted.
+`c09_pdu {kind, unit, suffix, alt}` — a CFDP PDU kind. The statement allows two behaviours for a PDU
+followed by further octets (decoded as the PDU alone, or refused with a documented error), so the op
+canonicalises: if `unit ‖ suffix` is refused with a documented error and the suffix is not empty,
+the result is that of `unit` alone (`trailing: "refused"`); both sides apply the same rule, so both
+allowed behaviours give the same compared fields and folding does not. `trailing` itself is
+informational (excluded from the comparison by the harness).
 -/
 namespace SpVerif.Ops.Prefix
 open SpVerif.J SpVerif.Prefix Lean
@@ -107,7 +116,7 @@ def getRaws (j : Json) : R (List Bytes) := do
     | .ok s => bytesOfHex s
     | .error _ => .error "raws: not a string"
 
-def ops : List (String × Handler) := [
+def unitOps : List (String × Handler) := [
   ("c09_unit", fun j => do
       let k ← getKind j
       let raw := (← getHex j "unit") ++ (← getHex j "suffix")
@@ -125,5 +134,55 @@ def ops : List (String × Handler) := [
       pure (res (fun (l : List Decoded) => obj [("units", jarr (l.map stepJ))])
         (splitStream k.codec raws.flatten)))
 ]
+
+/-! ## CFDP PDU kinds -/
+
+def getPduKind (j : Json) : R PduKind := do
+  match ← getStr j "kind" with
+  | "ack" => pure .ack
+  | "prompt" => pure .prompt
+  | "keep_alive" => pure .keepAlive
+  | "nak" => pure .nak
+  | "file_data" => pure .fileData
+  | k => .error s!"unknown PDU kind {k}"
+
+def pduDecodedJ : PduDecoded → Json
+  | .ack a => obj (Ops.DirectiveFixed.ackFields a)
+  | .prompt p => obj (Ops.DirectiveFixed.promptFields p)
+  | .keepAlive k => obj (Ops.DirectiveFixed.kaFields k)
+  | .nak k => obj (Ops.DirectiveFixed.nakFields k)
+  | .fileData p => Ops.FileData.pduJ p
+
+/-- "same", or one of the two behaviours the statement allows for trailing octets -/
+def allowed (r : PduDecoded) : Py PduDecoded → Bool
+  | .ok r' => r' == r
+  | .error e => e.documented
+
+def pduJ (k : PduKind) (buf alt : Bytes) (trailing : String) (r : PduDecoded) : Json :=
+  let n := r.len
+  obj [("fields", pduDecodedJ r), ("len", jn n), ("data_end", jn r.dataEnd),
+       ("inside", jb (decide (n ≤ buf.length))),
+       ("prefix", verdictPdu r (k.decode (buf.take n))),
+       ("extended_ok", jb (allowed r (k.decode (buf.take n ++ alt)))),
+       ("trailing", js trailing)]
+where
+  verdictPdu (r : PduDecoded) : Py PduDecoded → Json
+    | .ok r' => if r' = r then js "same" else js "differs"
+    | .error e => js ("err:" ++ e.name)
+
+def pduOp (k : PduKind) (unit suffix alt : Bytes) : Json :=
+  match k.decode (unit ++ suffix) with
+  | .ok r => obj [("ok", pduJ k (unit ++ suffix) alt (if suffix.isEmpty then "none" else "decoded") r)]
+  | .error e =>
+    if suffix.isEmpty || !e.documented then obj [("err", js e.name)]
+    else res (pduJ k unit alt "refused") (k.decode unit)
+
+def pduOps : List (String × Handler) := [
+  ("c09_pdu", fun j => do
+      let k ← getPduKind j
+      pure (pduOp k (← getHex j "unit") (← getHex j "suffix") (← getHex j "alt")))
+]
+
+def ops : List (String × Handler) := unitOps ++ pduOps
 
 end SpVerif.Ops.Prefix
